@@ -5,7 +5,7 @@ out=$1; seed=$2; shift 2
 [ -x .build/bin/gencatalog ] || ./setup.sh > /dev/null 2>&1
 for id in "$@"; do
   t0=$(date +%s)
-  res=$(VERIF_SEED=$seed VERIF_SCRATCH=thor ./check $id thorough 2>&1 | grep -E "^(VIOLATION|INCONCLUSIVE|HELD|KNOWN)" | head -3 | cut -c1-300)
+  res=$(VERIF_SEED=$seed VERIF_SCRATCH=thor ./check $id thorough 2>&1 | grep -a -E "^(VIOLATION|INCONCLUSIVE|HELD|KNOWN)" | head -3 | cut -c1-300)
   echo "$id thorough seed=$seed $(( $(date +%s)-t0 ))s :: $res" >> $out
 done
 echo DONE >> $out
